@@ -89,6 +89,9 @@ func replaySearch(p *Prog, o *Obligation, id string) map[string]interface{} {
 
 // ---------- bounded stand-ins ----------
 
+// standinTier: quick or thorough; the harnesses enumerate one size further in the thorough tier
+var standinTier = "quick"
+
 type standin struct {
 	Prop, Pkg, Test, Tier, Bound string
 }
@@ -133,12 +136,16 @@ func runStandin(p *Prog, sd standin) map[string]interface{} {
 	b, _ := json.Marshal(ov)
 	ovPath := filepath.Join(tmp, "ov.json")
 	os.WriteFile(ovPath, b, 0o644)
-	ctx, cancel := context.WithTimeout(context.Background(), 300*time.Second)
+	limit := 300
+	if standinTier == "thorough" {
+		limit = 1500
+	}
+	ctx, cancel := context.WithTimeout(context.Background(), time.Duration(limit)*time.Second)
 	defer cancel()
 	t0 := time.Now()
-	cmd := exec.CommandContext(ctx, "go", "test", "-v", "-overlay", ovPath, "-vet=off", "-count=1", "-timeout", "280s", "-run", "^"+sd.Test+"$", ".")
+	cmd := exec.CommandContext(ctx, "go", "test", "-v", "-overlay", ovPath, "-vet=off", "-count=1", "-timeout", fmt.Sprintf("%ds", limit-20), "-run", "^"+sd.Test+"$", ".")
 	cmd.Dir = dir
-	cmd.Env = append(os.Environ(), "GOFLAGS=-mod=mod", "GOPROXY=off", "GOSUMDB=off", "GOTOOLCHAIN=local")
+	cmd.Env = append(os.Environ(), "GOFLAGS=-mod=mod", "GOPROXY=off", "GOSUMDB=off", "GOTOOLCHAIN=local", "VF_TIER="+standinTier)
 	out, runErr := cmd.CombinedOutput()
 	res["seconds"] = time.Since(t0).Seconds()
 	res["command"] = strings.Join(cmd.Args, " ") + "   (cwd " + dir + ")"
